@@ -143,11 +143,33 @@ def check(col: Collector, tier: str):
     ok = ok and vals["int"] < vals["float"] < vals["double"]
     col.add("C13.R4", "utils._type_priority", "int<float<double", ok, f"priorities {vals}", f"{um.rel}:{node.lineno}")
     mat = repo.function("most_accurate_type")
-    srt = [c for c in ast.walk(mat.node) if isinstance(c, ast.Call) and call_name(c) == "sorted"]
-    ok = len(srt) == 1 and "_type_priority[t.type]" in src(kwarg(srt[0], "key")) and src(kwarg(srt[0], "reverse")) == "True"
-    rets = [r for r in walk_no_nested(mat.node) if isinstance(r, ast.Return)]
-    ok = ok and len(rets) == 1 and src(rets[0].value) == f"{src([n for n in walk_no_nested(mat.node) if isinstance(n, ast.Assign) and n.value is srt[0]][0].targets[0])}[0]"
-    col.add("C13.R4", mat.short, "returns-highest-priority-type", ok, "sorted by priority descending, first element returned", mat.loc)
+    # what is returned, with locals substituted: the first of the highest-priority operands - sorted(.., key, reverse=True)[0] or max(.., key)
+    from sa.core.paths import substituted_paths
+    lst = mat.node.args.args[0].arg
+    rets = [v for items in substituted_paths(mat.node) for k, v, *_ in items if k == "return"]
+    ok = len(rets) == 1 and rets[0] is not None
+    undecided = False
+    if len(rets) > 1:
+        undecided = True
+        col.defer("most_accurate_type has several return paths (a hand-written selection): C13.R4 returns-highest-priority-type not decided on this shape")
+    if ok:
+        r = rets[0]
+        core = None
+        if isinstance(r, ast.Subscript) and src(r.slice) == "0" and isinstance(r.value, ast.Call) and call_name(r.value) == "sorted" \
+                and kwarg(r.value, "reverse") is not None and src(kwarg(r.value, "reverse")) == "True":
+            core = r.value
+        elif isinstance(r, ast.Call) and call_name(r) == "max" and isinstance(r.func, ast.Name):
+            core = r
+        if core is None and not (isinstance(r, ast.Call) and call_name(r) in ("min", "sorted")) \
+                and not (isinstance(r, ast.Subscript) and isinstance(r.value, ast.Call) and call_name(r.value) == "sorted"):
+            undecided = True
+            col.defer(f"most_accurate_type returns `{src(r)[:60]}`: the choice is not made by sorted()/max() over the priority table "
+                      "(a hand-written selection): C13.R4 returns-highest-priority-type not decided on this shape")
+        key = kwarg(core, "key") if core is not None else None
+        ok = core is not None and len(core.args) == 1 and src(core.args[0]) == lst and isinstance(key, ast.Lambda) and len(key.args.args) == 1 \
+            and src(key.body) == f"_type_priority[{key.args.args[0].arg}.type]"
+    col.add("C13.R4", mat.short, "returns-highest-priority-type", ok or undecided,
+            "the first operand type of the highest priority must be returned (sorted by priority descending, first element; or max by priority)", mat.loc)
     bt = defs_of(vb.node, "best_type")
     ok = any(isinstance(d, ast.Call) and call_name(d) == "most_accurate_type" and src(d.args[0]).replace(" ", "") == "[left.cpp_type(),right.cpp_type()]" for d in bt)
     col.add("C13.R4", vb.short, "result-typed-by-widest-operand", ok, "", vb.loc)
